@@ -149,8 +149,20 @@ func main() {
 	os.Exit(exit)
 }
 
-func runRule(p *Prog, r *Rule, tier string) *RuleResult {
+func runRule(p *Prog, r *Rule, tier string) (res *RuleResult) {
 	c := &Ctx{rule: r, tier: tier}
+	defer func() {
+		// a rule that cannot resolve its anchors is undecided on its own; the other rules still run
+		if rec := recover(); rec != nil {
+			msg := ""
+			if u, ok := rec.(UndecidedError); ok {
+				msg = u.Msg
+			} else {
+				msg = fmt.Sprintf("analysis panicked: %v\n%s", rec, debug.Stack())
+			}
+			res = &RuleResult{Rule: r.ID, Doc: r.Doc, Min: r.Min, Undecided: msg}
+		}
+	}()
 	r.Run(p, c)
 	sortObs(c.obs)
 	// keys must be unique per rule so that known findings and replays address one construct
@@ -162,13 +174,13 @@ func runRule(p *Prog, r *Rule, tier string) *RuleResult {
 			c.obs[i].Key = fmt.Sprintf("%s#%d", k, seen[k])
 		}
 	}
-	res := &RuleResult{Rule: r.ID, Doc: r.Doc, Instances: len(c.obs), Min: r.Min, Notes: c.notes, Obs: c.obs}
+	res = &RuleResult{Rule: r.ID, Doc: r.Doc, Instances: len(c.obs), Min: r.Min, Notes: c.notes, Obs: c.obs}
 	for _, o := range c.obs {
 		if !o.OK {
 			res.Failed++
 		}
 	}
-	if res.Instances < r.Min {
+	if res.Instances < r.Min && res.Failed == 0 {
 		undecided("rule %s examined %d instances, fewer than the %d confirmed by hand: its anchors no longer match the code (a rule that matches nothing would pass vacuously)", r.ID, res.Instances, r.Min)
 	}
 	return res
@@ -176,8 +188,13 @@ func runRule(p *Prog, r *Rule, tier string) *RuleResult {
 
 func report(p *Prog, prop, tier string, seed int, results []*RuleResult, known []KnownFinding, verif string, dump, noEvid bool, replayOb *Obligation, wall time.Duration) int {
 	var all []Obligation
+	undecidedN := 0
 	for _, r := range results {
 		all = append(all, r.Obs...)
+		if r.Undecided != "" {
+			undecidedN++
+			fmt.Printf("UNDECIDED: property=%s rule %s: %s\n", prop, r.Rule, r.Undecided)
+		}
 	}
 	isKnown := func(o Obligation) *KnownFinding {
 		for i := range known {
@@ -290,6 +307,9 @@ func report(p *Prog, prop, tier string, seed int, results []*RuleResult, known [
 	}
 	if violations > 0 {
 		return 1
+	}
+	if undecidedN > 0 {
+		return 2
 	}
 	return 0
 }
